@@ -426,7 +426,7 @@ theorem allowance_exact {s s' : State} {sp f t v x : Nat} (h : s.exec cfg (.tran
 abbrev reachVS (nAcc h0 : Nat) (vals : List (Nat × Nat)) (ops : List Op) (w : Nat) : VS :=
   ((init nAcc h0 vals).run cfg ops).vs w
 
-/-- **refcount_invariant.**  After *any* sequence of the ten operation kinds, for every validator and every period
+/-- **refcount_invariant.**  After *any* sequence of the thirteen operation kinds, for every validator and every period
 `p` the reference count of the historical-rewards record `p` is exactly the number of delegator starting infos that
 point at `p`, plus one if `p` is the period just before the validator's current period, plus the number of slash
 events recorded for `p` (the SDK's `ReferenceCountInvariant` is the sum of these equations over `p`).  Consequently
@@ -705,7 +705,7 @@ theorem transfer_never_breaks_bookkeeping (nAcc h0 : Nat) (vals : List (Nat × N
 
 /-! ### the bank side: staking pools, distribution module account, accounts -/
 
-/-- **pool_invariant** — the SDK staking `ModuleAccountInvariants`, as a theorem: after *any* sequence of the twelve
+/-- **pool_invariant** — the SDK staking `ModuleAccountInvariants`, as a theorem: after *any* sequence of the thirteen
 operation kinds from genesis the bonded pool holds exactly the tokens of the Bonded validators, and the not-bonded
 pool holds exactly the tokens of the other validators plus the balances of all unbonding-delegation entries.  (A share
 transfer moves no tokens: `transfer_leaves_chain_unchanged`; delegate / undelegate / redelegate move them between the
@@ -866,6 +866,16 @@ example :
 -- a transfer that pays both parties (hypothesis of transfer_leaves_chain_unchanged)
 example : isOk (((init 4 1 [(1000, 0)]).run cfg [.delegate 1 0 500, .delegate 2 0 300, .alloc 0 77, .block]).exec cfg
     (.transfer 1 2 0 200)) = true := by decide
+-- maturity: while account 2 has an incoming redelegation at validator 1 it may not transfer there; after the unbonding
+-- period the redelegation has completed (the transfer goes through), the unbonding entry of 50 was paid back out of the
+-- not-bonded pool, and the jailed validator 0 is Unbonded
+example :
+    let s := (init 4 1 [(200000000000000000000, 0), (200000000000000000000, 0)]).run cfg
+      [.delegate 2 0 700, .redelegate 2 0 1 100, .undelegate 2 0 50, .jail 0, .block]
+    isOk (s.exec cfg (.transfer 2 3 1 10)) = false ∧ s.notBondedPool = 200000000000000000600 ∧
+    isOk ((s.run cfg [.mature]).exec cfg (.transfer 2 3 1 10)) = true ∧ (s.run cfg [.mature]).returned 2 = 50 ∧
+    (s.run cfg [.mature]).ubd = [] ∧ ((s.run cfg [.mature]).vs 0).unbonded = true ∧
+    (s.run cfg [.mature]).notBondedPool = 200000000000000000550 := by decide
 -- every status: a validator that was jailed and left the active set (Unbonding) still pays the rewards accrued while it
 -- was bonded when shares are transferred (all the transfer theorems above quantify over histories with jail / unjail
 -- operations and over the validator-set update at the end of every block)
